@@ -126,6 +126,50 @@ def pmap(fn, shards, procs=None):
     return out
 
 
+class CallTimeout(Exception):
+    """One library call exceeded the budget the oracle gave it (reported as non-termination)."""
+
+
+class time_limit:
+    """`with time_limit(5, "normal_form"):` -- an inner watchdog for a single library call that
+    finishes in milliseconds on the unchanged tree.  Nests inside the per-case watchdog of safe():
+    the outer timer is suspended and re-armed with what was left of it."""
+
+    def __init__(self, seconds, what="call"):
+        self.seconds, self.what = seconds, what
+
+    def __enter__(self):
+        import signal, time
+        self.armed = False
+        try:
+            self.old = signal.signal(signal.SIGALRM, self._on_alarm)
+        except ValueError:
+            return self
+        self.armed, self.t0 = True, time.time()
+        if time_limit.fired >= 3:      # established: keep the run short (replays start at 0)
+            self.seconds = min(self.seconds, 1.0)
+        self.left, _ = signal.setitimer(signal.ITIMER_REAL, self.seconds)
+        return self
+
+    fired = 0
+
+    def _on_alarm(self, signum, frame):
+        time_limit.fired += 1
+        raise CallTimeout("%s did not return within %.0f s (non-termination?)" % (self.what, self.seconds))
+
+    def __exit__(self, *exc):
+        import signal, time
+        if self.armed:
+            signal.setitimer(signal.ITIMER_REAL, 0)
+            signal.signal(signal.SIGALRM, self.old)
+            if self.left:
+                signal.setitimer(signal.ITIMER_REAL, max(0.05, self.left - (time.time() - self.t0)))
+        return False
+
+
+_TIMEOUTS_SEEN = [0]
+
+
 def safe(pid, fn):
     """Wrap a case function: an exception escaping the oracle while it drives the library is
     reported as a violation of kind 'crash' (it reproduces on replay like any other), instead of
@@ -133,6 +177,7 @@ def safe(pid, fn):
     limit = float(os.environ.get("VERIF_CASE_TIMEOUT", "120"))
 
     def on_alarm(signum, frame):
+        _TIMEOUTS_SEEN[0] += 1
         raise CaseTimeout("no result within %.0f s (non-termination?)" % limit)
 
     def wrapped(params):
@@ -140,7 +185,9 @@ def safe(pid, fn):
         old = None
         try:
             old = signal.signal(signal.SIGALRM, on_alarm)
-            signal.setitimer(signal.ITIMER_REAL, limit)
+            # once cases of this process have timed out the violation is established: later cases
+            # get a shorter budget so that the run still ends (the replay uses the full budget)
+            signal.setitimer(signal.ITIMER_REAL, limit if _TIMEOUTS_SEEN[0] < 2 else min(limit, 15.0))
         except ValueError:      # not in the main thread of the process: no watchdog
             old = None
         try:
